@@ -114,3 +114,20 @@ def check(ctx):
         rb = ctx.body_with(u, f"{SA}::gather_best_txs")
         g = ctx.one_call(rb, f"{SA}::gather_best_txs")
         ctx.arg_origin("3.constraints-passed", g, 1, "param:2")
+
+    # -- 4. a child becomes executable (and so can be handed out) only when no parent of it is left in the pool --
+    with ctx.clause("4.executable-only-without-pooled-parents"):
+        NE4 = f"{SA}::new_executable_transaction"
+        HD4 = "fuel_core_txpool::storage::Storage::has_dependencies"
+        for name, fn in (("committed", "process_committed_transactions"), ("preconfirmed", "process_preconfirmed_committed_transaction")):
+            b4 = ctx.body_with(f"{POOL}::{fn}", NE4)
+            t4 = ctx.call_tests(b4, HD4)
+            nes = [c for c in b4.calls_to(NE4) if c.bb in b4.live]
+            pushes = [c for c in b4.calls_to("alloc::vec::Vec::push") if any(ctx.same_local(b4, c.args[0], ne.args[1], depth=2) for ne in nes)]
+            targets = pushes if pushes else nes
+            ctx.guarded(f"4.{name}-promotion-only-if-no-remaining-parent", b4, targets, t4, truth=False,
+                        detail="a dependent of a committed transaction is promoted to executable only if it has no other parent in the pool "
+                               "(otherwise the child can be listed before, or without, its remaining parent)")
+            if pushes:
+                ext = [c for c in b4.calls if c.bb in b4.live and c.name in ("extend", "append") and any(ctx.same_local(b4, c.args[0], ne.args[1], depth=2) for ne in nes)]
+                ctx.expect_sites(f"4.{name}-no-unguarded-bulk-promotion", ext, exactly=0, what="bulk extend of the promotion list (bypasses the per-dependent test)")
